@@ -339,5 +339,5 @@ var verifEngineC07 = &verifsim.Engine{
 }
 
 func TestVerifSim(t *testing.T) {
-	verifsim.Main(t, map[string]*verifsim.Engine{"C07": verifEngineC07})
+	verifsim.Main(t, map[string]*verifsim.Engine{"C07": verifEngineC07, "C04": verifEngineC04Stop})
 }
